@@ -143,9 +143,10 @@ std::vector<double> Import_List(std::string filepath, double dimension, unsigned
 	{
 		for(unsigned int i = 0; i < ignored_initial_lines; i++)
 			inputfile.ignore(10000, '\n');
-		double x;
+		// Read in extended precision: a quotient value/dimension written by Export_List can lie outside the range of double.
+		long double x;
 		while(inputfile >> x)
-			data.push_back(x * dimension);
+			data.push_back(static_cast<double>(x * dimension));
 		inputfile.close();
 	}
 	else
@@ -173,14 +174,15 @@ unsigned int Count_Lines(std::string filepath)
 
 std::vector<std::vector<double>> Import_Table(std::string filepath, std::vector<double> dimensions, unsigned int ignored_initial_lines)
 {
-	std::vector<double> data_aux = {};
+	std::vector<long double> data_aux = {};
 	std::ifstream inputfile;
 	inputfile.open(filepath);
 	if(inputfile.good())
 	{
 		for(unsigned int i = 0; i < ignored_initial_lines; i++)
 			inputfile.ignore(10000, '\n');
-		double x;
+		// Read in extended precision: a quotient value/dimension written by Export_Table can lie outside the range of double.
+		long double x;
 		while(inputfile >> x)
 			data_aux.push_back(x);
 		inputfile.close();
@@ -199,7 +201,7 @@ std::vector<std::vector<double>> Import_Table(std::string filepath, std::vector<
 			for(unsigned int j = 0; j < columns; j++)
 			{
 				double dim = dimensions.empty() ? 1.0 : dimensions[j];
-				data[i][j] = data_aux[k] * dim;
+				data[i][j] = static_cast<double>(data_aux[k] * dim);
 				k++;
 			}
 		}
@@ -236,7 +238,7 @@ void Export_List(std::string filepath, std::vector<double> data, double dimensio
 	if(header.length() > 0)
 		outputfile << header << std::endl;
 	for(unsigned int i = 0; i < data.size(); i++)
-		outputfile << In_Units(data[i], dimension) << std::endl;
+		outputfile << static_cast<long double>(data[i]) / dimension << std::endl;
 	outputfile.close();
 }
 
@@ -258,7 +260,8 @@ void Export_Table(std::string filepath, const std::vector<std::vector<double>>& 
 		for(unsigned int column = 0; column < columns; column++)
 		{
 			double dim = dimensions.empty() ? 1.0 : dimensions[column];
-			outputfile << In_Units(data[line][column], dim);
+			// The quotient is formed in extended precision: it can exceed the range of double although value and unit do not.
+			outputfile << static_cast<long double>(data[line][column]) / dim;
 			if(column != columns - 1)
 				outputfile << "\t";
 			else if(line != lines - 1)
